@@ -118,6 +118,16 @@ def lean_build_and_audit() -> dict:
         lock.close()
 
 
+def leanchecker(prop: str) -> dict:
+    """Thorough tier: independent re-check of the compiled theorem modules of one property."""
+    mods = [f"IoosQc.Theorems.{p.stem}" for p in sorted((LEAN / "IoosQc" / "Theorems").glob(f"{prop}*.lean"))]
+    if not mods:
+        return {"ok": False, "log": "no theorem module"}
+    t0 = time.time()
+    p = subprocess.run(["lake", "env", "leanchecker", *mods], cwd=LEAN, stdout=subprocess.PIPE, stderr=subprocess.STDOUT, check=False)
+    return {"ok": p.returncode == 0, "modules": mods, "log": p.stdout.decode()[-1500:], "wall_s": round(time.time() - t0, 1)}
+
+
 def obligations_for(audit: dict, prop: str):
     """(obligations, discharged, names, failures) for the theorems named `<prop>_*`."""
     names = sorted(n for n in audit.get("theorems", {}) if n.startswith(prop + "_"))
@@ -223,6 +233,11 @@ def finish(out: Outcome, audit: dict, level_note: str = "") -> int:
         proof_broken.append("axiom policy: " + "; ".join(failures))
     if audit.get("build_ok") and n_obl == 0:
         proof_broken.append(f"no theorem named {prop}_* found by the audit")
+    if out.tier == "thorough" and audit.get("build_ok"):
+        lc = leanchecker(prop)
+        out.extra["leanchecker"] = {k: lc.get(k) for k in ("ok", "modules", "wall_s")}
+        if not lc["ok"]:
+            proof_broken.append("leanchecker rejected the compiled modules: " + lc.get("log", "")[-600:])
 
     lines = []
     for kid, cnt in sorted(out.known_hits.items()):
